@@ -51,6 +51,18 @@ def scenarios(rng, tier):
         for p_ in range(6): s.frame(0, probe(mac(90 + p_), twin(own, p_), mac(90 + p_), twin(own, p_)))
         for p_ in range(6): s.frame(0, probe(TWIN0, own, twin(TWIN0, p_, 0x01), own))          # same Ethernet source, real sources one bit apart
         s.frame(0, query(M, own, seq=9, esrc=M)); s.frame(0, query(M, own, seq=10, esrc=twin(M, k % 6)))
+    # what one interface may hold does not depend on what the others hold: three other interfaces keep 300 observations
+    # each (never queried), then interface 0 records 300 and is queried
+    for k in range(1 if tier == 'quick' else 4):
+        s.start('multi4_%d' % k)
+        for c in (0, 1, 2, 3): s.lines.append(Cfg(c, mtu=9216 if k % 2 == 0 else 1500).line())
+        M = mac(1)
+        for c in (1, 2, 3):
+            oc = own_of(c); s.frame(c, discover(M, gen=1))
+            for i in range(300): s.frame(c, probe(mac(20000 + 1000 * c + i), oc, mac(20000 + 1000 * c + i), oc))
+        s.frame(0, discover(M, gen=1))
+        for i in range(300): s.frame(0, probe(mac(30000 + i), OWN0, mac(30000 + i), OWN0))
+        for q_ in range(2 if k % 2 == 0 else 6): s.frame(0, query(M, OWN0, seq=5 + q_))
     fam_full_lists(s, 'full', RESIDUE_MTUS[::2] if tier == 'quick' else RESIDUE_MTUS)
     fam_mtu_change(s, 'mtuchg', rng, 8 if tier == 'quick' else 150)
     oth = other_iface_variants(s.text(), rng, 10 if tier == 'quick' else 150)
